@@ -496,6 +496,12 @@ def check(pid, tier):
                 # the minimised form of a timing-dependent crash may have lost what made it fail: try the case as found
                 cf = orig_cf
                 fails, logs = confirm(binpaths, b, cf, os.path.join(res['outdir'], 'confirm0'), times=ntries)
+            first_cf = orig_cf.replace('.failing.case', '.first_failing.case')
+            if fails == 0 and first_cf != orig_cf and os.path.exists(first_cf):
+                # state carried from case to case inside the campaign process makes every shrink candidate fail: the
+                # shrunk case is then meaningless, the case that failed first is the self-contained one
+                cf = first_cf
+                fails, logs = confirm(binpaths, b, cf, os.path.join(res['outdir'], 'confirm1'), times=ntries)
             if fails == 0:
                 cf = cf0
                 notes.append('FLAKY-UNCONFIRMED %s (%s): 0/%d replays failed' % (cf, how, ntries))
